@@ -5,8 +5,11 @@ From Coq Require Import String List NArith Arith Bool.
 Import ListNotations.
 Require Import Verif.Imports.Rules Verif.Imports.Collect Verif.Imports.CollectProps Verif.Imports.FlattenProps
                Verif.Imports.TermProps Verif.Imports.Index Verif.Imports.IndexProps Verif.Imports.Extract Verif.Imports.ExtractProps
+               Verif.Imports.NameTables Verif.Imports.Paths Verif.Imports.PathsProps Verif.Imports.Names Verif.Imports.NamesProps
+               Verif.Imports.History Verif.Imports.HistoryProps Verif.Imports.DepthProps
+               Verif.Imports.Versions Verif.Imports.VersionsProps
                Verif.Imports.Current
-               Verif.Gen.ImportRules.
+               Verif.Gen.ImportRules Verif.Gen.NameRules.
 
 (* the source still has the shape the model was transliterated from (regenerated table) *)
 Theorem C05_rules_current : current_rules = expected_rules.
@@ -87,8 +90,8 @@ Print Assumptions C05_closure_depth_unique_independent.
 (* the canonical index identifies slash direction and version suffix, and nothing else *)
 Theorem C05_index_canonical :
   (forall s s', slash_eq s s' -> index_of current_rules s = index_of current_rules s') /\
-  (forall name v, has at_sign name = false -> index_of current_rules (name ++ String at_sign v) = index_of current_rules name) /\
-  (forall s s', has backslash s = false -> has at_sign s = false -> has backslash s' = false -> has at_sign s' = false ->
+  (forall name v, IndexProps.has at_sign name = false -> index_of current_rules (name ++ String at_sign v) = index_of current_rules name) /\
+  (forall s s', IndexProps.has backslash s = false -> IndexProps.has at_sign s = false -> IndexProps.has backslash s' = false -> IndexProps.has at_sign s' = false ->
       index_of current_rules s = index_of current_rules s' -> s = s') /\
   (forall s, index_of current_rules (index_of current_rules s) = index_of current_rules s).
 Proof. exact index_canonical_current. Qed.
@@ -103,3 +106,118 @@ Theorem C05_extract_layout :
       (forall l, In l (extract current_rules (sec ++ body)) <-> In l sec /\ is_import current_rules l = true)).
 Proof. exact extract_layout_current. Qed.
 Print Assumptions C05_extract_layout.
+
+(* ======================= round 3 ======================= *)
+
+(* the statements the name / history models were transliterated from are the ones in the source now *)
+Theorem C05_name_rules_current : current_name_rules = expected_name_rules.
+Proof. exact name_rules_current. Qed.
+Print Assumptions C05_name_rules_current.
+
+(* HISTORIES ON ONE Parser VALUE: every Parse of any sequence Set / Parse / Set / Parse ... is the result of a run of the
+   collector from its initial state under the depth limit of the latest Set before it (none: no limit) *)
+Theorem C05_parse_depends_on_latest_settings : forall ops,
+  run_history current_rules (hrules_of current_name_rules) ops = map spec_outcome_cur (with_latest zero_settings ops).
+Proof. exact parse_depends_on_latest_settings_current. Qed.
+Print Assumptions C05_parse_depends_on_latest_settings.
+
+(* SAME IMPORT TEXT, DIFFERENT MEANING: the claim key is the resolved index; both files are in the result under every
+   schedule, and they are different nodes whenever the indices differ *)
+Theorem C05_same_text_both_included : forall files resource sched i j fi fj raw l,
+  let g := ngraph files resource in let root := root_idx files resource in
+  quiescent (run current_rules g 0 root sched) = true -> final_cur g root 0 sched = Some l ->
+  reach g root i -> reach g root j ->
+  nth_error files (N.to_nat i) = Some fi -> nth_error files (N.to_nat j) = Some fj ->
+  In raw (nf_imports fi) -> In raw (nf_imports fj) ->
+  In (resolve files resource i raw) l /\ In (resolve files resource j raw) l /\
+  (In (nindex (import_name (base_of files resource i) [] raw)) (map nf_key files) ->
+   nindex (import_name (base_of files resource i) [] raw) <> nindex (import_name (base_of files resource j) [] raw) ->
+   resolve files resource i raw <> resolve files resource j raw).
+Proof. exact same_text_both_included_current. Qed.
+Print Assumptions C05_same_text_both_included.
+
+(* NAMES. path.Clean: a function of the path's meaning, idempotent, equal exactly on paths that mean the same place;
+   an empty element, a "." element, a name followed by ".." do not change the place *)
+Theorem C05_clean_canonical :
+  (forall p, clean (clean p) = clean p) /\
+  (forall p q, clean p = clean q <-> meaning p = meaning q) /\
+  (forall p q, clean p = p -> clean q = q -> clean p = clean q -> p = q) /\
+  (forall (x:bytes) (a c m:list bytes),
+     (m = [[]] \/ m = [[dot]] \/ exists n, is_name n = true /\ m = [n; dotdot]) ->
+     Forall (nosep sep) (x :: a ++ c) -> c <> [] ->
+     clean (joinc sep (x :: a ++ m ++ c)) = clean (joinc sep (x :: a ++ c))).
+Proof.
+  split; [exact clean_idempotent|]. split; [exact clean_eq_iff_meaning|]. split; [exact clean_injective_on_clean|exact clean_same_place].
+Qed.
+Print Assumptions C05_clean_canonical.
+
+(* the index of an import written in a local file is the cleaned path of (directory of the importer | project root) /
+   (import text with its extension); so two import lines get the same index exactly when they mean the same place *)
+Theorem C05_index_is_clean_path : forall base ver raw, local_ok base raw ->
+  nindex (import_name base ver raw) = clean (import_path base raw).
+Proof. exact index_is_clean_path. Qed.
+Print Assumptions C05_index_is_clean_path.
+
+Theorem C05_same_index_iff_same_place : forall base1 ver1 raw1 base2 ver2 raw2, local_ok base1 raw1 -> local_ok base2 raw2 ->
+  (nindex (import_name base1 ver1 raw1) = nindex (import_name base2 ver2 raw2)
+   <-> meaning (import_path base1 raw1) = meaning (import_path base2 raw2)).
+Proof. exact same_index_iff_same_place. Qed.
+Print Assumptions C05_same_index_iff_same_place.
+
+(* ... which was FALSE of the index before fixes/C05-2 (no normalisation): one file, two indices *)
+Theorem C05_index_unnormalised_refuted :
+  exists base1 raw1 base2 raw2, local_ok base1 raw1 /\ local_ok base2 raw2 /\
+    meaning (import_path base1 raw1) = meaning (import_path base2 raw2) /\
+    nindex_unnormalised (import_name base1 [] raw1) <> nindex_unnormalised (import_name base2 [] raw2).
+Proof. exact index_unnormalised_refuted. Qed.
+Print Assumptions C05_index_unnormalised_refuted.
+
+(* spellings with one index are one node of the graph: read once, listed once (any limit, any schedule) *)
+Theorem C05_spellings_claimed_once : forall files resource maxd sched,
+  (forall i j raw1 raw2,
+     nindex (import_name (base_of files resource i) [] raw1) = nindex (import_name (base_of files resource j) [] raw2) ->
+     resolve files resource i raw1 = resolve files resource j raw2) /\
+  (let g := ngraph files resource in let root := root_idx files resource in
+   let s := run current_rules g maxd root sched in
+   quiescent s = true -> NoDup (reads s) /\ forall l, final_cur g root maxd sched = Some l -> NoDup l).
+Proof. intros files resource maxd sched. split; [exact (spellings_one_node files resource)|exact (spellings_claimed_once_current files resource maxd sched)]. Qed.
+Print Assumptions C05_spellings_claimed_once.
+
+(* THE DEPTH LIMIT, narrowed: when every file nearer than the limit is SURE (claimed under every schedule: the root; an
+   import of a sure file none of whose walks below the limit has length limit-1), the result is exactly the files nearer
+   than the limit and the same under every schedule. Every graph whose files have one depth below the limit is such. *)
+Theorem C05_closure_depth_sure : forall g root maxd sched,
+  (forall f, nearer g root maxd f -> sure g root maxd f) ->
+  quiescent (run current_rules g maxd root sched) = true -> 0 < maxd ->
+  exists l, final_cur g root maxd sched = Some l /\ NoDup l /\ (forall f, In f l <-> nearer g root maxd f).
+Proof. exact closure_depth_sure_current. Qed.
+Print Assumptions C05_closure_depth_sure.
+
+Theorem C05_closure_depth_sure_independent : forall g root maxd s1 s2,
+  (forall f, nearer g root maxd f -> sure g root maxd f) ->
+  quiescent (run current_rules g maxd root s1) = true -> quiescent (run current_rules g maxd root s2) = true -> 0 < maxd ->
+  final_cur g root maxd s1 = final_cur g root maxd s2.
+Proof. exact closure_depth_sure_independent_current. Qed.
+Print Assumptions C05_closure_depth_sure_independent.
+
+Theorem C05_unique_below_limit_is_sure : forall g root maxd,
+  (forall f d d', walk g root f d -> walk g root f d' -> d < maxd -> d' < maxd -> d = d') ->
+  forall f, nearer g root maxd f -> sure g root maxd f.
+Proof. exact unique_below_sure. Qed.
+Print Assumptions C05_unique_below_limit_is_sure.
+
+(* VERSIONS / APP NAMES (the branch a second claimer takes): the tagged collector is Collect.step when the tags are
+   forgotten - an error of this kind changes nothing in what is claimed, read or listed - and when every import line of
+   a file agrees with that file's tag (app name up to " :: ", version up to master / main / develop) NO schedule
+   reports one. The converse (a disagreement is reported under every schedule) is judged by the oracle and compared
+   with the model in the correspondence, not proved. *)
+Theorem C05_versions_erase : forall tg maxd nocheck root roottag sched,
+  t_st (trun current_rules nocheck tg maxd root roottag sched) = run current_rules (erase_graph tg) maxd root sched.
+Proof. exact versions_erase_current. Qed.
+Print Assumptions C05_versions_erase.
+
+Theorem C05_consistent_no_error : forall tg maxd nocheck tagof root roottag sched,
+  (forall f k t, In (k, t) (tg f) -> same_tag (tagof k) t = true) -> same_tag (tagof root) roottag = true ->
+  t_err (trun current_rules nocheck tg maxd root roottag sched) = false.
+Proof. exact consistent_no_error_current. Qed.
+Print Assumptions C05_consistent_no_error.
